@@ -85,6 +85,10 @@ Definition parse_top (j : json) : pj :=
    no map at all and the legacy algorithm runs *)
 Definition parse_root (j : json) : option pj :=
   match parse_top j with PNull => None | r => Some r end.
+(* the same for "imports": since the fix 9a0cc2e the mixed-keys rule is a rule
+   of "exports" only *)
+Definition parse_root_imports (j : json) : option pj :=
+  match parse j with PNull => None | r => Some r end.
 
 Definition map_data (e : pj) : list (str * pj) :=
   match e with PObj md _ => md | _ => [] end.
